@@ -25,6 +25,11 @@ BENIGN = {
                                         'function of state that is itself rolled back',
     D_ + 'invalidate_insertion_caches': 'drops the locate hint and the duplicate index; both are rebuilt lazily from the vertex set',
 }
+# fields for which a Skipped outcome passed through from a callee is not followed: the duplicate index is handed to the
+# triangulation layer as `Option<&mut HashGridIndex>` (not a tracked pointer type), so its writes there cannot be
+# correlated with the outcome; the index is written only on the Inserted path of insert_transactional (read), stale
+# entries are re-resolved before use (C09 RESOLVE), and C09 PAIR-IDX pairs index updates with vertex additions
+NO_SKIP_TRACKING = {'spatial_index'}
 # sub-fields that are caches, not state (path below the tracked field)
 CACHE_SUBFIELDS = {'insertion_state': {'last_inserted_cell': 'locate hint: performance only, validated before use, not serialised'}}
 
@@ -34,6 +39,8 @@ def engine_for(prog, mod, field, infeasible, keep):
     res = pair.Resources(prog, mod, prefix_map=FIELDS[field])
     eng = SideEngine(prog, mod, res, infeasible=infeasible, benign=BENIGN)
     eng.replace_table = {o: d for o, (ok, d) in keep.get(field, {}).items() if ok}
+    if field in NO_SKIP_TRACKING:
+        eng.track_skip = False
     caches = CACHE_SUBFIELDS.get(field)
     if caches:
         eng.m_pred = lambda rel: not rel or rel[0] not in caches
